@@ -498,7 +498,7 @@ Definition macro_int_params_okb (base bits : Z) : bool := Z.eqb base 0 && Z.eqb 
 Definition doc_value_sources : list (string * string) := [
   ("rulesRunner.nodeText", "func(n ast.Node) []byte :: if isAbsentNode(n) { return nil } ;; from := rr.ctx.Fset.Position(n.Pos()).Offset ;; to := rr.ctx.Fset.Position(n.End()).Offset ;; src := rr.fileBytes() ;; if (from >= 0 && from < len(src)) && (to >= from && to <= len(src)) { return src[from:to] } ;; if n, ok := n.(*ast.Comment); ok { return []byte(n.Text) } ;; // Fallback to the printer. var buf bytes.Buffer ;; if err := rr.printNode(&buf, n); err != nil { panic(err) } ;; return buf.Bytes()");
   ("rulesRunner.fileBytes", "func() []byte :: if rr.src != nil { return rr.src } ;; src, err := os.ReadFile(rr.filename) ;; if err != nil || src == nil { rr.src = make([]byte, 0) } else { rr.src = src } ;; return rr.src");
-  ("rulesRunner.printNode", "func(buf *bytes.Buffer, n ast.Node) error :: switch n := n.(type) { case *gogrep.NodeSlice: sep := "", "" switch n.Kind { case gogrep.StmtNodeSlice, gogrep.SpecNodeSlice, gogrep.DeclNodeSlice: sep = ""\n"" } for i := 0; i < n.Len(); i++ { if i != 0 { buf.WriteString(sep) } if err := rr.printNode(buf, n.At(i)); err != nil { return err } } return nil case *ast.FieldList: if n.Opening.IsValid() { buf.WriteByte('(') } for i, field := range n.List { if i != 0 { buf.WriteString("", "") } if err := rr.printNode(buf, field); err != nil { return err } } if n.Closing.IsValid() { buf.WriteByte(')') } return nil case *ast.Field: for i, name := range n.Names { if i != 0 { buf.WriteString("", "") } buf.WriteString(name.Name) } if n.Type != nil { if len(n.Names) != 0 { buf.WriteByte(' ') } if err := printer.Fprint(buf, rr.ctx.Fset, n.Type); err != nil { return err } } if n.Tag != nil { buf.WriteByte(' ') buf.WriteString(n.Tag.Value) } return nil } ;; return printer.Fprint(buf, rr.ctx.Fset, n)");
+  ("rulesRunner.printNode", "func(buf *bytes.Buffer, n ast.Node) error :: switch n := n.(type) { case *gogrep.NodeSlice: sep := "", "" switch n.Kind { case gogrep.StmtNodeSlice, gogrep.SpecNodeSlice, gogrep.DeclNodeSlice: sep = ""\n"" } for i := 0; i < n.Len(); i++ { if i != 0 { buf.WriteString(sep) } if err := rr.printNode(buf, n.At(i)); err != nil { return err } } return nil case *gogrep.PartialNode: rng, ok := n.X.(*ast.RangeStmt) if !ok { return fmt.Errorf(""unsupported partial node of %T"", n.X) } if n.Pos() == rng.Pos() { buf.WriteString(""for "") if rng.Key != nil { if err := printer.Fprint(buf, rr.ctx.Fset, rng.Key); err != nil { return err } if rng.Value != nil { buf.WriteString("", "") if err := printer.Fprint(buf, rr.ctx.Fset, rng.Value); err != nil { return err } } buf.WriteString("" "" + rng.Tok.String() + "" "") } } buf.WriteString(""range "") return printer.Fprint(buf, rr.ctx.Fset, rng.X) case *ast.FieldList: if n.Opening.IsValid() { buf.WriteByte('(') } for i, field := range n.List { if i != 0 { buf.WriteString("", "") } if err := rr.printNode(buf, field); err != nil { return err } } if n.Closing.IsValid() { buf.WriteByte(')') } return nil case *ast.Field: for i, name := range n.Names { if i != 0 { buf.WriteString("", "") } buf.WriteString(name.Name) } if n.Type != nil { if len(n.Names) != 0 { buf.WriteByte(' ') } if err := printer.Fprint(buf, rr.ctx.Fset, n.Type); err != nil { return err } } if n.Tag != nil { buf.WriteByte(' ') buf.WriteString(n.Tag.Value) } return nil } ;; return printer.Fprint(buf, rr.ctx.Fset, n)");
   ("filterParams.nodeText", "runner.go: rr.filterParams.nodeText = rr.nodeText");
   ("renderMessage.text", "text := rr.nodeText(n) ;; text = rr.fixedText(text, n, msg[dollarPos+1+nameLen:]) ;; text = truncateText(text, rr.truncateLen)");
   ("expandMacro.literals", "switch lit.Kind { case token.STRING: val, err := strconv.Unquote(lit.Value) if err == nil { conv.types.Types[lit] = types.TypeAndValue{ Type: types.Typ[types.UntypedString], Value: constant.MakeString(val), } } case token.INT: val, err := strconv.ParseInt(lit.Value, 0, 64) if err == nil { conv.types.Types[lit] = types.TypeAndValue{ Type: types.Typ[types.UntypedInt], Value: constant.MakeInt64(val), } } case token.FLOAT: val, err := strconv.ParseFloat(lit.Value, 64) if err == nil { conv.types.Types[lit] = types.TypeAndValue{ Type: types.Typ[types.UntypedFloat], Value: constant.MakeFloat64(val), } } }")
